@@ -25,6 +25,7 @@ TRUSTED_BASE = [
     "hand-written model lean/Rbacx/Model/*.lean, tied to /repo by the correspondence harness (differential, this run) and harness/extract.py",
     "oracles computed by the harness without calling rbacx: CPython str()/float()/datetime parsing, json, hashlib",
     "where a check uses the source-to-Lean translation (C02, C03, C04, C05, C07, C17): harness/pytolean.py and the meaning of Python's operations in "
+    "where a check uses the source-to-Lean translation (C01, C02, C03, C05, C07, C11, C17): harness/pytolean.py and the meaning of Python's operations in "
     "lean/Rbacx/Model/PyLib.lean, both validated against CPython on every run (Run/SrcEval.lean, Run/SrcEvalFrag.lean, Run/SrcEvalTarget.lean, "
     "Run/SrcEvalObl.lean); "
     "for the translated obligation checker BasicObligationChecker.check (C07): EXTERNAL-FUNCTION PARAMETERS — _finite_number is not translated "
@@ -84,6 +85,25 @@ TRUSTED_BASE = [
     "model's evalRel) — for these three the equalities speak about the source with the model's function in their place and what ties them "
     "to CPython is the differential run alone (the evaluator gets the real Python's values per input line); the designation of the two "
     "statement ranges (rel branch; the fifteen operator branches = Src.eval_binops) by the text of their `if` tests",
+    "for the translated DECISION CORE OF THE ENGINE, statement ranges of Guard._evaluate_core_async (C01, C07, C11; harness/pytolean_async.py on top "
+    "of pytolean.py, lean/Rbacx/Model/PyAwait.lean, validated against CPython on every C01 run by Run/SrcEvalEngine.lean: the same statements "
+    "compiled as a real async def, stub collaborators sync and async) the trusted readings are: AWAITED COLLABORATOR OUTCOMES AS INPUTS — "
+    "`await maybe_await(self.obligations.check(raw, context))` / `…role_resolver.expand(roles)` is not translated but a function parameter whose "
+    "result is the call's outcome, some v = returned v, none = raised something `except Exception` catches (BaseException — cancellation, "
+    "KeyboardInterrupt — is not represented; maybe_await is part of the outcome: sync and async collaborators differ only in how the value "
+    "arrives), so the equalities speak about the source with the model's checker / resolver outcome in the call's place and what the built-in "
+    "checker computes is C07_translated's business; TRY/EXCEPT AS A CASE SPLIT — `try: T = <call>; <rest> except Exception: <handler>` is "
+    "`match outcome | some => bind T, rest | none => handler`, accepted only when the call is the first statement of the try body and <rest> "
+    "and <handler> consist of assignments of names / constants / bool(x) / not / is-None tests and ifs over them (nothing that raises on "
+    "JSON-shaped values: a user object whose __bool__ raises is outside), a pair target `ok, ch = …` unpacks as CPython does (list/tuple of "
+    "length 2, the keys of a 2-entry dict, a 2-character string) and anything else is the raising case with neither name bound; "
+    "logger.<method>(…) statements have no effect on values; `with self.<lock>:` is transparent; self.<attr> reads are inputs; frozen "
+    "dataclasses (Subject, Action, Resource, Context, Decision) are records of their declared fields — x.f = field read, getattr(x, 'f', d) = d "
+    "also for x = None, C(f=…) = the record in declaration order; the range designation (first/last top-level statement by text prefix, or ONE "
+    "nested assignment), which also builds the Python function the translation is compared with; the equalities hold for a subject whose roles "
+    "is a list or falsy (a str / dict there is iterated by CPython and by the translation, the model takes no roles: outside `roles: list[str]`) "
+    "and for raw decisions that are dicts (what evaluate / decide / the cache return); by hand remain _decide_async, the cache protocol around "
+    "it (C08), the contextvars, whether and how often the sinks are called, the sync wrappers",
 ]
 
 
